@@ -344,6 +344,23 @@ func paramsToArgs(sig *types.Signature) []*internal.Elem {
 	return args
 }
 
+// hasTypeParam reports whether tp is already one of the type parameters to infer. A generic function
+// passed to itself (Id(Id)) would add its own type parameters a second time and make the
+// substitution in go/types' inference cyclic (it never terminates); go/types avoids this by renaming.
+func hasTypeParam(tparams []*types.TypeParam, tp *types.TypeParam) bool {
+	for _, t := range tparams {
+		if t == tp {
+			return true
+		}
+	}
+	return false
+}
+
+func errGenericFuncArg(pkg *Package, arg *Element) error {
+	src, _, _ := pkg.cb.loadExpr(arg.Src)
+	return fmt.Errorf("cannot use generic function %s without instantiation", src)
+}
+
 func inferFunc(pkg *Package, fn *internal.Elem, sig *types.Signature, targs []types.Type, args []*Element, flags InstrFlags) ([]types.Type, types.Type, error) {
 	args, err := checkInferArgs(pkg, fn, sig, args, flags)
 	if err != nil {
@@ -388,12 +405,18 @@ func inferFunc(pkg *Package, fn *internal.Elem, sig *types.Signature, targs []ty
 			xlist[i].typ = t.typ
 			if tp := t.typ.TypeParams(); tp != nil {
 				for i := 0; i < tp.Len(); i++ {
+					if hasTypeParam(tparams, tp.At(i)) {
+						return nil, nil, errGenericFuncArg(pkg, arg)
+					}
 					tparams = append(tparams, tp.At(i))
 				}
 			}
 		case *types.Signature:
 			if tp := t.TypeParams(); tp != nil {
 				for i := 0; i < tp.Len(); i++ {
+					if hasTypeParam(tparams, tp.At(i)) {
+						return nil, nil, errGenericFuncArg(pkg, arg)
+					}
 					tparams = append(tparams, tp.At(i))
 				}
 			}
